@@ -422,19 +422,8 @@ func run(c *vf.Case) {
 			var got int64 = -1
 			for i := 0; i < 300 && ok && got < 0; i++ {
 				time.Sleep(5 * time.Millisecond)
-				for _, ev := range s.rtcpOut.Events() {
-					if ev.Stamp <= s.endStamp {
-						continue
-					}
-					for _, p := range ev.Pkts {
-						if rr, isRR := p.(*rtcp.ReceiverReport); isRR {
-							for _, rep := range rr.Reports {
-								if rep.SSRC == 3000 {
-									got = int64(rep.TotalLost)
-								}
-							}
-						}
-					}
+				if n, last := s.afterEnd(rrLost3000); n >= 2 {
+					got = last
 				}
 			}
 			_ = s.i.Close()
@@ -542,15 +531,8 @@ func (s *scenario) checkConservation() {
 			// the last sender report of stream 0 counts every packet written on it
 			want := s.writes[0].Load()
 			var got int64 = -1
-			for _, ev := range s.rtcpOut.Events() {
-				if ev.Stamp <= s.endStamp {
-					continue // written while the writers were still running
-				}
-				for _, p := range ev.Pkts {
-					if sr, ok := p.(*rtcp.SenderReport); ok && sr.SSRC == 1000 {
-						got = int64(sr.PacketCount)
-					}
-				}
+			if n, last := s.afterEnd(srCount1000); n >= 2 || (s.bubble && n >= 1) {
+				got = last // inside a bubble nothing is preempted between generating and writing
 			}
 			s.c.Add("conservation_checks", 1)
 			// in a chain the report sender also sees what members above it inject
@@ -744,6 +726,47 @@ func (s *scenario) receiverReportBurst(r *vf.Rand) (skipped int64, ok bool) {
 	return int64(last-first) + 1 - int64(n), true
 }
 
+// afterEnd scans the RTCP written with a logical stamp after the traffic ended and returns how
+// many packets matched and the value of the last one. A report's CONTENT is computed before
+// it reaches the next writer, so the first report stamped after the end may still have been
+// generated while the last packets were in flight (the ticker goroutine was preempted between
+// generating and writing: false alarm in the thorough tier on a loaded machine). The second
+// one for the same stream comes from a later tick: generated after the first was written, i.e.
+// after the end. Evidence therefore needs n >= 2.
+func (s *scenario) afterEnd(match func(rtcp.Packet) (int64, bool)) (n int, last int64) {
+	last = -1
+	for _, ev := range s.rtcpOut.Events() {
+		if ev.Stamp <= s.endStamp {
+			continue
+		}
+		for _, p := range ev.Pkts {
+			if v, ok := match(p); ok {
+				n++
+				last = v
+			}
+		}
+	}
+	return n, last
+}
+
+func srCount1000(p rtcp.Packet) (int64, bool) {
+	if sr, ok := p.(*rtcp.SenderReport); ok && sr.SSRC == 1000 {
+		return int64(sr.PacketCount), true
+	}
+	return 0, false
+}
+
+func rrLost3000(p rtcp.Packet) (int64, bool) {
+	if rr, ok := p.(*rtcp.ReceiverReport); ok {
+		for _, rep := range rr.Reports {
+			if rep.SSRC == 3000 {
+				return int64(rep.TotalLost), true
+			}
+		}
+	}
+	return 0, false
+}
+
 func (s *scenario) reportAfterEnd() bool {
 	hasSender := false
 	for _, b := range s.members {
@@ -754,14 +777,6 @@ func (s *scenario) reportAfterEnd() bool {
 	if !hasSender {
 		return true
 	}
-	for _, ev := range s.rtcpOut.Events() {
-		if ev.Stamp > s.endStamp {
-			for _, p := range ev.Pkts {
-				if sr, ok := p.(*rtcp.SenderReport); ok && sr.SSRC == 1000 {
-					return true
-				}
-			}
-		}
-	}
-	return false
+	n, _ := s.afterEnd(srCount1000)
+	return n >= 2
 }
